@@ -262,6 +262,34 @@ func getFileType(s string) (CfgFileType, error) {
 	return fileTypeIllegal, errors.New(errorText.String())
 }
 
+// After unmarshaling, 'pathLen: 0' and no pathLen at all look the same.
+// This looks at the JSON document again and marks every basicConstraints
+// extension that names its pathLen explicitly.
+func markPathLen(js []byte, exts []AnyExtension) {
+	var doc struct {
+		Extensions []struct {
+			BasicConstraints *struct {
+				Content *struct {
+					PathLen *int `json:"pathLen"`
+				} `json:"content"`
+			} `json:"basicConstraints"`
+		} `json:"extensions"`
+	}
+	if json.Unmarshal(js, &doc) != nil {
+		return
+	}
+
+	for i := range exts {
+		if i >= len(doc.Extensions) || exts[i].BasicConstraints == nil {
+			continue
+		}
+		bc := doc.Extensions[i].BasicConstraints
+		if bc != nil && bc.Content != nil && bc.Content.PathLen != nil {
+			exts[i].BasicConstraints.HasPathLen = true
+		}
+	}
+}
+
 // Implements ParseConfiguration from [config.Configurator].
 // It unmarshals the provided string and generate the appropriate configuration object
 // with the stated defaults.
@@ -290,6 +318,8 @@ func (v V1Configurator) ParseConfiguration(s string) (any, error) {
 			return nil, err
 		}
 
+		markPathLen(js, certCfg.Extensions)
+
 		out, err := initCertificate(certCfg)
 		if err != nil {
 			return nil, err
@@ -310,6 +340,8 @@ func (v V1Configurator) ParseConfiguration(s string) (any, error) {
 		if err != nil {
 			return nil, err
 		}
+
+		markPathLen(js, profileCfg.Extensions)
 
 		out, err := initProfile(profileCfg)
 		if err != nil {
